@@ -21,6 +21,21 @@ import Glom.Model.C18Slice
   quotient (for |operands| < 2^53); `str * int`, `list + list`, `dict | dict`;
   negative indices and full slice semantics; ZeroDivisionError, TypeError,
   KeyError, IndexError, AttributeError, ValueError classes.
+
+  Floats.  `+ - * /` and unary minus on IEEE doubles are Lean's `Float` operations
+  (bit-exact; compared by `float.hex()`); `int / int` and `float(int)` are the
+  correctly rounded (round-half-even) quotient / conversion for ints of any size,
+  computed with integer arithmetic (`ratToFloat`), OverflowError when the result
+  does not fit.  Where core Lean cannot reproduce CPython's value bit for bit —
+  `float // x`, `float % x` (C `fmod`), `x ** y` with a float result that is not an
+  exact power of two (libm `pow`) — the kernel still decides the OUTCOME CLASS
+  (a float, ZeroDivisionError for a zero divisor / a zero base with a negative
+  exponent, OverflowError for an int operand beyond the float range or a power
+  beyond it, TypeError) and returns the *opaque float* `PV.float "?"`: a float
+  whose value is not modelled.  Opaque floats flow through later operations
+  (`? + 1` is `?`, `? / 0` is ZeroDivisionError, `? & 1` is TypeError; `1 / ?`,
+  `? ** x`, `x ** ?` are outside the kernel: the class depends on the value);
+  the driver compares observations modulo opaque floats.
 -/
 namespace Glom.C02
 open Glom
@@ -28,6 +43,10 @@ open Glom
 def unsupported : PyExc := ⟨"<unsupported>"⟩
 def tyErr : PyExc := ⟨"TypeError"⟩
 def zdErr : PyExc := ⟨"ZeroDivisionError"⟩
+def ovErr : PyExc := ⟨"OverflowError"⟩
+
+/-- the `float.hex()` text of the opaque float: a float whose value the kernel does not model -/
+def opaqueHex : String := "?"
 
 /-! ### floats: `float.hex()` text ↔ IEEE double -/
 
@@ -97,9 +116,57 @@ def hexOfFloat (f : Float) : String :=
 
 def two53 : Int := 9007199254740992
 
-/-- `float(i)` when it is exact -/
-def floatOfInt (i : Int) : Option Float :=
-  if -two53 ≤ i ∧ i ≤ two53 then some (Float.ofInt i) else none
+/-- what the kernel knows about a float result -/
+inductive FK where
+  | known (f : Float)      -- the value, bit for bit
+  | opaque                 -- a float; the value is not modelled
+  | overflow               -- does not fit a double: OverflowError
+  | unknown                -- outside the kernel
+
+/-- the double nearest to `(q + δ) · 2^e` (round half to even), `0 ≤ δ < 1`, `δ > 0` iff
+    `sticky`; `q ≥ 2^54` -/
+def roundScaled (q : Nat) (sticky : Bool) (e : Int) : FK :=
+  let bits := q.log2 + 1
+  if bits < 55 then .unknown
+  else
+    let drop := bits - 53
+    let m := q >>> drop
+    let rem := q % 2 ^ drop
+    let half := 2 ^ (drop - 1)
+    let up := rem > half || (rem == half && (sticky || m % 2 == 1))
+    let m' := if up then m + 1 else m
+    let ex : Int := e + drop
+    if ex < -1021 then .unknown           -- subnormal range: another rounding position
+    else
+      let f := Float.scaleB (Float.ofNat m') ex
+      if f.isInf then .overflow else .known f
+
+/-- the correctly rounded double of `n / d` (`n, d > 0`): CPython's `int / int`
+    (`long_true_divide`) and, with `d = 1`, `float(int)` (`PyLong_AsDouble`) -/
+def ratToFloat (n d : Nat) : FK :=
+  let s : Int := 56 - ((n.log2 : Int) - (d.log2 : Int))     -- the scaled quotient has 55 … 57 bits
+  let nn := if s ≥ 0 then n <<< s.toNat else n
+  let dd := if s ≥ 0 then d else d <<< (-s).toNat
+  roundScaled (nn / dd) (nn % dd != 0) (-s)
+
+def negFK : FK → FK
+  | .known f => .known (-f)
+  | k => k
+
+/-- `float(i)`: exact for |i| ≤ 2^53, correctly rounded beyond, OverflowError from 2^1024 − 2^970 on -/
+def floatOfIntK (i : Int) : FK :=
+  if -two53 ≤ i ∧ i ≤ two53 then .known (Float.ofInt i)
+  else if i < 0 then negFK (ratToFloat i.natAbs 1) else ratToFloat i.natAbs 1
+
+/-- `a / c` for ints, `c ≠ 0`; the sign of a zero result is that of the operands (`0 / -5` is `-0.0`) -/
+def intTrueDiv (a c : Int) : FK :=
+  let neg := (a < 0) != (c < 0)
+  if a == 0 then .known (if neg then -0.0 else 0.0)
+  else
+    let r := if -two53 ≤ a ∧ a ≤ two53 ∧ -two53 ≤ c ∧ c ≤ two53
+      then FK.known (Float.ofNat a.natAbs / Float.ofNat c.natAbs)
+      else ratToFloat a.natAbs c.natAbs
+    if neg then negFK r else r
 
 /-! ### value helpers -/
 
@@ -108,18 +175,26 @@ def asInt? : PV → Option Int
   | .bool b => some (if b then 1 else 0)
   | _ => none
 
-/-- a number: exact int, or float -/
+/-- a number: exact int, float, or the opaque float -/
 inductive Num where
   | i (v : Int)
   | f (v : Float)
+  | o
 
 def asNum? : PV → Option Num
   | .int i => some (.i i)
   | .bool b => some (.i (if b then 1 else 0))
-  | .float h => (floatOfHex h).map .f
+  | .float h => if h == opaqueHex then some .o else (floatOfHex h).map .f
   | _ => none
 
 def pvFloat (f : Float) : PV := .float (hexOfFloat f)
+def pvOpaque : PV := .float opaqueHex
+
+def pvOfFK : FK → Except PyExc PV
+  | .known f => .ok (pvFloat f)
+  | .opaque => .ok pvOpaque
+  | .overflow => .error ovErr
+  | .unknown => .error unsupported
 
 partial def pvHashable : PV → Bool
   | .list _ | .dict _ | .odict _ | .set _ => false
@@ -272,15 +347,106 @@ def bothBool : PV → PV → Option (Bool × Bool)
 def repeatList {α} (xs : List α) (n : Int) : List α :=
   (List.replicate n.toNat xs).flatten
 
+/-- `seq * n`: a count that does not fit `Py_ssize_t` is an OverflowError (whatever its sign);
+    a count the kernel will not materialise is outside the modelled domain -/
+def repGuard (len : Nat) (n : Int) : Option PyExc :=
+  if n > 9223372036854775807 ∨ n < -9223372036854775808 then some ovErr
+  else if n * len > 100000 then some unsupported
+  else none
+
+def seqRepeat {α} (xs : List α) (n : Int) (mk : List α → PV) : Except PyExc PV :=
+  match repGuard xs.length n with
+  | some e => .error e
+  | none => .ok (mk (repeatList xs n))
+
+def isFiniteF (x : Float) : Bool := !(x.isNaN || x.isInf)
+
+/-- `2^e` for `-1022 ≤ e ≤ 1023` -/
+def pow2Float (neg : Bool) (e : Int) : Float :=
+  Float.ofBits ((if neg then (1 : UInt64) <<< 63 else 0) ||| ((e + 1023).toNat.toUInt64 <<< 52))
+
+/-- the integer a finite float is, when it is one (and below 2^63 in magnitude) -/
+def floatInt? (y : Float) : Option Int :=
+  if y == y.floor && y.abs < 9.2e18 then
+    some (if y < 0.0 then -((-y).toUInt64.toNat : Int) else (y.toUInt64.toNat : Int))
+  else none
+
+/-- `x ** y` for floats (CPython `float_pow`): the special cases it decides itself, then libm
+    `pow` — whose value the kernel reproduces only for exact powers of two; otherwise the
+    result is a float (opaque), or OverflowError when it leaves the range of a double
+    (decided on `y · log2 |x|` with a margin; inside the margin: outside the kernel) -/
+def floatPow (x y : Float) : Except PyExc PV :=
+  if y == 0.0 then .ok (pvFloat 1.0)
+  else if !(isFiniteF x && isFiniteF y) then .error unsupported
+  else if x == 0.0 then
+    if y < 0.0 then .error zdErr            -- 0.0 cannot be raised to a negative power
+    else match floatInt? y with
+      | some k => .ok (pvFloat (if k % 2 == 1 then x else 0.0))     -- the sign of zero for an odd power
+      | none => .ok (pvFloat 0.0)          -- not an odd integer
+  else if x < 0.0 && y != y.floor then .error unsupported         -- a complex result
+  else if x == 1.0 then .ok (pvFloat 1.0)
+  else
+    let bits : Nat := x.toBits.toNat
+    let mant : Nat := bits % 2 ^ 52
+    let bexp : Nat := (bits / 2 ^ 52) % 2048
+    match (if mant == 0 && bexp != 0 then floatInt? y else none) with
+    | some k =>
+      -- |x| = 2^(bexp − 1023): the power is 2^((bexp − 1023) · k), exactly
+      let e : Int := ((bexp : Int) - 1023) * k
+      if e > 1023 then .error ovErr
+      else if e < -1022 then (if e < -1080 then .ok (pvFloat (if x < 0.0 && k % 2 == 1 then -0.0 else 0.0)) else .ok pvOpaque)
+      else .ok (pvFloat (pow2Float (x < 0.0 && k % 2 == 1) e))
+    | none =>
+      let t := y * Float.log2 x.abs
+      if t ≥ 1024.01 then .error ovErr
+      else if t ≤ 1023.99 then .ok pvOpaque
+      else .error unsupported
+
+/-- float ∘ float, both values known -/
 def floatBin (b : BinOp) (x y : Float) : Except PyExc PV :=
   match b with
   | .add => .ok (pvFloat (x + y))
   | .sub => .ok (pvFloat (x - y))
   | .mul => .ok (pvFloat (x * y))
   | .truediv => if y == 0.0 then .error zdErr else .ok (pvFloat (x / y))
-  | .floordiv | .mod => if y == 0.0 then .error zdErr else .error unsupported
-  | .pow => .error unsupported
+  -- C `fmod`: the value is not reproduced; never an error for a non-zero divisor
+  | .floordiv | .mod => if y == 0.0 then .error zdErr else .ok pvOpaque
+  | .pow => floatPow x y
   | _ => .error tyErr
+
+/-- opaque float ∘ known float -/
+def opaqueLeft (b : BinOp) (y : Float) : Except PyExc PV :=
+  match b with
+  | .add | .sub | .mul => .ok pvOpaque
+  | .truediv | .floordiv | .mod => if y == 0.0 then .error zdErr else .ok pvOpaque
+  | .pow => if y == 0.0 then .ok (pvFloat 1.0) else .error unsupported
+  | _ => .error tyErr
+
+/-- known float (or opaque) ∘ opaque float: a zero divisor / exponent cannot be excluded -/
+def opaqueRight (b : BinOp) : Except PyExc PV :=
+  match b with
+  | .add | .sub | .mul => .ok pvOpaque
+  | .truediv | .floordiv | .mod | .pow => .error unsupported
+  | _ => .error tyErr
+
+/-- arithmetic on two numbers of which at least one is a float: an int operand is
+    converted first (`float(i)`: OverflowError beyond the range of a double) -/
+def mixedBin (b : BinOp) (x y : Num) : Except PyExc PV :=
+  let isArith := match b with
+    | .band | .bor | .bxor => false
+    | _ => true
+  if !isArith then .error tyErr
+  else
+    let conv : Num → FK
+      | .i v => floatOfIntK v
+      | .f v => .known v
+      | .o => .opaque
+    match conv x, conv y with
+    | .overflow, _ | _, .overflow => .error ovErr
+    | .unknown, _ | _, .unknown => .error unsupported
+    | .known a, .known c => floatBin b a c
+    | .opaque, .known c => opaqueLeft b c
+    | _, .opaque => opaqueRight b
 
 def dictMerge (a b : List (PV × PV)) : Except PyExc PV :=
   (b.foldlM (fun acc kv => dictInsert acc kv.1 kv.2) a).map PV.dict
@@ -294,13 +460,14 @@ def pvBin (b : BinOp) (x y : PV) : Except PyExc PV :=
     | .mul => .ok (.int (a * c))
     | .floordiv => if c == 0 then .error zdErr else .ok (.int (Int.fdiv a c))
     | .mod => if c == 0 then .error zdErr else .ok (.int (Int.fmod a c))
-    | .truediv =>
-      if c == 0 then .error zdErr
-      else match floatOfInt a, floatOfInt c with
-        | some fa, some fc => .ok (pvFloat (fa / fc))
-        | _, _ => .error unsupported
+    | .truediv => if c == 0 then .error zdErr else pvOfFK (intTrueDiv a c)
     | .pow =>
-      if c < 0 then (if a == 0 then .error zdErr else .error unsupported)
+      -- a negative exponent: `float(a) ** float(c)` (CPython `long_pow` → `float_pow`)
+      if c < 0 then
+        match floatOfIntK a, floatOfIntK c with
+        | .overflow, _ | _, .overflow => .error ovErr
+        | .known fa, .known fc => floatPow fa fc
+        | _, _ => .error unsupported
       else if c > 64 then .error unsupported
       else .ok (.int (a ^ c.toNat))
     | .band => match bothBool x y with
@@ -312,37 +479,29 @@ def pvBin (b : BinOp) (x y : PV) : Except PyExc PV :=
     | .bxor => match bothBool x y with
       | some (p, q) => .ok (.bool (p != q))
       | none => .ok (.int (intXor a c))
-  | some (.f a), some (.f c) => floatBin b a c
-  | some (.f a), some (.i c) =>
-    match floatOfInt c with
-    | some fc => floatBin b a fc
-    | none => .error unsupported
-  | some (.i a), some (.f c) =>
-    match floatOfInt a with
-    | some fa => floatBin b fa c
-    | none => .error unsupported
+  | some x', some y' => mixedBin b x' y'
   | _, _ =>
     match b, x, y with
     | .add, .str s, .str t => .ok (.str (s ++ t))
     | .add, .list xs, .list ys => .ok (.list (xs ++ ys))
     | .add, .tuple xs, .tuple ys => .ok (.tuple (xs ++ ys))
     | .mul, .str s, n => match asInt? n with
-      | some k => .ok (.str (String.ofList (repeatList s.toList k)))
+      | some k => seqRepeat s.toList k (fun cs => .str (String.ofList cs))
       | none => .error tyErr
     | .mul, .list xs, n => match asInt? n with
-      | some k => .ok (.list (repeatList xs k))
+      | some k => seqRepeat xs k PV.list
       | none => .error tyErr
     | .mul, .tuple xs, n => match asInt? n with
-      | some k => .ok (.tuple (repeatList xs k))
+      | some k => seqRepeat xs k PV.tuple
       | none => .error tyErr
     | .mul, n, .str s => match asInt? n with
-      | some k => .ok (.str (String.ofList (repeatList s.toList k)))
+      | some k => seqRepeat s.toList k (fun cs => .str (String.ofList cs))
       | none => .error tyErr
     | .mul, n, .list xs => match asInt? n with
-      | some k => .ok (.list (repeatList xs k))
+      | some k => seqRepeat xs k PV.list
       | none => .error tyErr
     | .mul, n, .tuple xs => match asInt? n with
-      | some k => .ok (.tuple (repeatList xs k))
+      | some k => seqRepeat xs k PV.tuple
       | none => .error tyErr
     | .mod, .str _, _ => .error unsupported        -- printf-style formatting
     | .bor, .dict a, .dict c => dictMerge a c
@@ -355,6 +514,7 @@ def pvUn (u : UnOp) (x : PV) : Except PyExc PV :=
   | .invert, _ => .error tyErr
   | .neg, some (.i a) => .ok (.int (-a))
   | .neg, some (.f a) => .ok (pvFloat (-a))
+  | .neg, some .o => .ok pvOpaque
   | .neg, none => .error tyErr
 
 /-! ### calls: the harness' catalogue of callables and the builtin methods -/
